@@ -35,6 +35,7 @@ func gen(g *vh.Gen) {
 	}
 	sd.GenSched(g)
 	sd.GenSched2(g)
+	sd.GenSlow(g)
 	sd.GenChurn(g)
 	sd.GenMDeliver(g)
 	sd.GenConc(g)
@@ -52,6 +53,9 @@ func exec(kind string, in []string) []string {
 	}
 	if kind == "churn" {
 		return sd.ExecChurn(in)
+	}
+	if kind == "slow" {
+		return sd.ExecSlow(in)
 	}
 	if kind == "sched2" {
 		return sd.ExecSched2(in)
